@@ -1065,11 +1065,45 @@ func execC17(raw json.RawMessage, wantLog bool) (out Outcome) {
 			}
 			s.runFor(2 * time.Second)
 		}
+		// per partition the range of Len over the replicas loaded right now (lagging joiner scenario)
+		replicaRange := func() (lo, hi uint64, n int) {
+			type rg struct{ lo, hi uint64 }
+			now := map[uuid.UUID]*rg{}
+			for _, m := range s.nodes {
+				if !m.alive || m.parts == nil {
+					continue
+				}
+				if d := r.datasetOn(m, info.id); d != nil {
+					for _, p := range d.Partitions {
+						if !p.RaftLoaded {
+							continue
+						}
+						x := now[p.Id]
+						if x == nil {
+							now[p.Id] = &rg{uint64(p.Len), uint64(p.Len)}
+						} else {
+							if uint64(p.Len) < x.lo {
+								x.lo = uint64(p.Len)
+							}
+							if uint64(p.Len) > x.hi {
+								x.hi = uint64(p.Len)
+							}
+						}
+					}
+				}
+			}
+			for _, x := range now {
+				lo += x.lo
+				hi += x.hi
+			}
+			return lo, hi, len(now)
+		}
 		for round := 0; round < rounds; round++ {
 			for _, n := range s.nodes {
 				if !n.alive {
 					continue
 				}
+				loBefore, _, cntBefore := replicaRange()
 				rpc0 := s.rpcCount["/anndb_pb.DataManager/PartitionInfo"]
 				h, _ := r.runRead(W3Op{K: "size", Node: n.idx})
 				remote := s.rpcCount["/anndb_pb.DataManager/PartitionInfo"] - rpc0
@@ -1096,37 +1130,11 @@ func execC17(raw json.RawMessage, wantLog bool) (out Outcome) {
 					// between the sums of the per-partition minima and maxima over the loaded
 					// replicas right now; a node that does not host a partition contributes nothing
 					// to that range, so a zero from it is below the range.
-					type rg struct{ lo, hi uint64 }
-					now := map[uuid.UUID]*rg{}
-					for _, m := range s.nodes {
-						if !m.alive || m.parts == nil {
-							continue
-						}
-						if d := r.datasetOn(m, info.id); d != nil {
-							for _, p := range d.Partitions {
-								if !p.RaftLoaded {
-									continue
-								}
-								x := now[p.Id]
-								if x == nil {
-									now[p.Id] = &rg{uint64(p.Len), uint64(p.Len)}
-								} else {
-									if uint64(p.Len) < x.lo {
-										x.lo = uint64(p.Len)
-									}
-									if uint64(p.Len) > x.hi {
-										x.hi = uint64(p.Len)
-									}
-								}
-							}
-						}
-					}
-					var lo, hi uint64
-					for _, x := range now {
-						lo += x.lo
-						hi += x.hi
-					}
-					if len(now) == len(parts) && (got.n < lo || got.n > hi) {
+					// (replicas only grow while they catch up: lower bound from before the call,
+					// upper bound from after it)
+					_, hi, cnt := replicaRange()
+					lo := loBefore
+					if cnt == len(parts) && cntBefore == len(parts) && (got.n < lo || got.n > hi) {
 						r.viol("len/outside-the-range-of-the-replicas", "SizeInfo on n%d reports %d items; summing one loaded replica per partition gives between %d and %d", n.idx, got.n, lo, hi)
 					}
 					out.Stat("sizes_checked_against_replica_range", 1)
